@@ -20,6 +20,7 @@ RULE = ("6-9 client scenarios (relative, timedelta and absolute schedules, zero/
 ASSUME = [
     "controlled schedules preempt only where the pinned GIL interpreter can: a subset of the language-level interleavings",
     "the due time of a relative schedule is the clock at the call plus the delay; 'disposed before its due time' = the dispose() call returned at a clock strictly before it",
+    "schedule_periodic: a run is due one period after the START of the previous run (first run: one period after the call); once the dispose() has returned no further run may start (a run already committed may still start)",
     "a late start (pool saturated, loop busy) is not a violation; liveness is not part of C34 - the check only requires that the runs are not vacuous (actions did start)",
     "the cooperative executor starts workers lazily up to max_workers and serves tasks FIFO, like concurrent.futures.ThreadPoolExecutor",
 ]
